@@ -119,6 +119,7 @@ import matplotlib.pyplot as plt
 from .valueaxis import ValueAxis
 from .time import TimeAxis
 from .frequency import FrequencyAxis
+from .managers import energy_units
 from .saveable import Saveable
 from .datasaveable import DataSaveable
 from .. import REAL
@@ -650,8 +651,14 @@ class DFunction(Saveable, DataSaveable):
             w = t
             t = w.get_TimeAxis()
 
+            # the integration measure is the step in internal units
+            # (`step` is units managed and is converted when read in 
+            # an energy units context)
+            with energy_units("int"):
+                wstep = w.step
+                
             Y = w.length*numpy.fft.fftshift(numpy.fft.ifft(
-                numpy.fft.ifftshift(y)))*w.step/(numpy.pi*2.0)
+                numpy.fft.ifftshift(y)))*wstep/(numpy.pi*2.0)
 
             if w.atype == "complete":
 
@@ -735,8 +742,14 @@ class DFunction(Saveable, DataSaveable):
             w = t
             t = w.get_TimeAxis()
 
+            # the integration measure is the step in internal units
+            # (`step` is units managed and is converted when read in 
+            # an energy units context)
+            with energy_units("int"):
+                wstep = w.step
+
             Y = numpy.fft.fftshift(numpy.fft.fft(
-            numpy.fft.ifftshift(y)))*w.step/(numpy.pi*2.0)
+            numpy.fft.ifftshift(y)))*wstep/(numpy.pi*2.0)
 
             if t.atype == "complete":
 
